@@ -236,6 +236,14 @@ def runFlowOk (st : St) (c : Call) : St × List String :=
   | "set_base" :: _ => (st, ["O set_base ok"])
   | "set_param" :: _ => (st, ["O set_param ok"])
   | "update" :: _ => callUpdate c st mstHook
+  | "update_again" :: _ =>
+    -- update_routes handed the array it returned last time: the same as an update with a copy of
+    -- those values (echoed by the harness as `I elev`); "nothing returned yet" is a no-op
+    match findInp c "elev" with
+    | some ev =>
+      let (st', outs) := callUpdate { c with toks := "update" :: ev } st mstHook
+      (st', outs.filter (fun l => !(l.startsWith "O input_unchanged" || l.startsWith "O same_array")))
+    | none => (st, ["O update_again none"])
   | "acc" :: _ => (st, callAcc "" c st.topo.n st.g)
   | "basins" :: _ => (st, callBasins "" st.topo.n st.g st.mask st.isBase ++ certBasins c st)
   | "pits" :: _ =>
